@@ -4,7 +4,7 @@ import tast
 import mon
 import rk
 import aff
-from poly import Poly
+from poly import Poly, DEFS
 from protocol import SOLVERS, SOLOUT, solve_fn, acc_rule, main_loop_of, is_solout_iflet
 
 LEVEL = "other"
@@ -197,6 +197,111 @@ def fsal_variants(rep, f):
             aff.fsal_check(rep, ctx, m, flag, init_flag=init, rule=rule, per_latch=True)
 
 
+# ---------------------------------------------------------------- R-XOUT-STEP
+XOUT_SOLVERS = [m for m in ALL6 if m["mod"] != "bdf"]     # BDF prepares its interpolant on every step and ignores XOut
+
+
+def is_payload(name):
+    """the value carried by a present Option: closure parameter of map_or, or the binding of a Some(..) pattern"""
+    if name.startswith("optval["):
+        return True
+    d = DEFS.get(name)
+    if d and d[0] == "proj" and isinstance(d[1][0], Poly):
+        a = d[1][0].single_atom()
+        dd = DEFS.get(a) if a else None
+        return bool(dd) and dd[0] in ("unwrap", "armval")
+    return False
+
+
+def xout_tests(sx):
+    """boolean values computed from the payload of an Option<Float>: map_or closures, Some(..) arms of a match, if-let values"""
+    from poly import reaches
+    out = []
+    for e in sx.trace:
+        k = e.get("kind")
+        cands = []
+        if k == "map_or":
+            cands = [e["value"]]
+        elif k == "matchval" and "Option<f64>" in (e["node"]["scrut"].get("ty") or "") and e["node"].get("ty") == "bool":
+            cands = [v for j, pat, v in e["arms"] if pat.get("k") == "PTupleStruct"]
+        elif k == "ifval" and e["node"].get("ty") == "bool" and e["node"]["cond"].get("k") == "LetExpr" and e.get("v1") is not None:
+            cands = [e["v1"]]
+        for v in cands:
+            if isinstance(v, Poly) and reaches(v, is_payload):
+                out.append(dict(value=v, node=e["node"]))
+    return out
+
+
+def xout_rule(rep, f):
+    """A callback that answered XOut(xo) is owed an interpolant on the step that contains xo.  The solvers decide this with a
+    test on the latched request; evaluated at a model point with xold < xo < x (x = the abscissa handed to the callback of this
+    step) every such test must hold, otherwise the step's dense coefficients are not prepared."""
+    import pnum
+    from poly import reaches
+    n_tests = 0
+    for m in XOUT_SOLVERS:
+        fn = aff.solve_def(m)
+        body = f.body(fn)
+        latch_arms = [a for mm in solout_matches(body["body"]) for a in mm["arms"] if arm_flag(a) == "XOut"
+                      and tast.find(a["body"], lambda z: z.get("k") == "Assign")]
+        key = "R-XOUT-STEP:%s" % fn
+        if not latch_arms:
+            rep.ok("R-XOUT-STEP", key, "no XOut request is latched", nontrivial=False)
+            continue
+        try:
+            variants = rk.analyse_variants(f, fn)
+        except rk.AnalysisError as e:
+            rep.inconc("R-XOUT-STEP", key, str(e))
+            continue
+        bad, seen, unknown = [], 0, []
+        for tag, sx, hk in variants:
+            souts = [r for r in hk.solout_calls if r["in_main"]]
+            if len(souts) != 1 or not isinstance(souts[0]["x"], Poly) or not isinstance(souts[0]["xold"], Poly):
+                continue
+            s = souts[0]
+            tests = xout_tests(sx)
+            if not tests:
+                continue
+            cur = {}
+
+            def leaf(name):
+                if is_payload(name):
+                    return cur["xo"]
+                if name == "xend":
+                    return 3.0
+                return 1.0 if name == "X" else 0.5
+            try:
+                xo_, x_ = pnum.value(s["xold"], {}, leaf), pnum.value(s["x"], {}, leaf)
+            except pnum.NoEval as e:
+                unknown.append((tag, str(e)))
+                continue
+            if not x_ > xo_:
+                unknown.append((tag, "model point does not advance (xold %r, x %r)" % (s["xold"], s["x"])))
+                continue
+            cur["xo"] = 0.5 * (xo_ + x_)
+            for t in tests:
+                seen += 1
+                try:
+                    v = pnum.value(t["value"], {}, leaf)
+                except pnum.NoEval as e:
+                    unknown.append((tag, str(e)))
+                    continue
+                if v is not True:
+                    bad.append((tag, t, s))
+        n_tests += seen
+        if bad:
+            tag, t, s = bad[0]
+            rep.violation("R-XOUT-STEP", key, "the XOut test %r is false for a requested point strictly inside the step [%r, %r] handed to the callback "
+                          "(path variant %s): the interpolant for that step is not prepared" % (t["value"], s["xold"], s["x"], tag), t["node"].get("sp"))
+        elif unknown or not seen:
+            rep.inconc("R-XOUT-STEP", key, "XOut request is latched in %d arm(s) but its test could not be evaluated: %s"
+                       % (len(latch_arms), unknown[0][1] if unknown else "no test on the latched value found"), body.get("sp"))
+        else:
+            rep.ok("R-XOUT-STEP", key, "%d evaluation(s) of the XOut test hold for xold < xo < x" % seen)
+    if n_tests < 5:
+        rep.inconc("R-XOUT-STEP", "R-XOUT-STEP:floor", "only %d XOut tests evaluated (expected >= 5)" % n_tests)
+
+
 def bdf_restart_rule(rep, f):
     """BDF ModifiedSolution arms must restart the difference history."""
     fn = "methods::bdf::BDF::solve"
@@ -320,12 +425,15 @@ def run(rep, tier):
     rep.rule("R-INTERP-H", "the interpolant handed to the callback covers exactly [xold, x]")
     rep.rule("R-INTERRUPT-STOP", "from every Interrupt arm no IVP::* or SolOut call is reachable and the returned status is UserInterrupt; UserInterrupt arises nowhere else")
     rep.rule("R-MODIFIED-REEVAL", "on ModifiedSolution the derivative slot is re-evaluated at the modified (x, y) (loop invariant slot = f(x, y)); BDF restarts its difference history")
+    rep.rule("R-XOUT-STEP", "a latched XOut(xo) request with xold < xo < x makes the solver prepare the interpolant of that step: the solver's test on the "
+             "latched value is true at a model point inside the interval handed to the callback (forward direction)")
     rep.rule("R-AFF-FSAL", "loop invariant: at every loop head the derivative slot holds f(x, y)")
     init_contig_rules(rep, f)
     acc_rule(rep, f, rule="R-SOLOUT-ONCE")
     interrupt_rule(rep, f)
     fsal_variants(rep, f)
     bdf_restart_rule(rep, f)
+    xout_rule(rep, f)
     rep.explanation = ("All-paths structural check of the callback protocol in the six solve() functions: monitor automata for call multiplicity and "
                        "Interrupt handling, symbolic value numbering (x + tau*h) for interval contiguity and the interpolant's segment, and the "
                        "loop invariant 'derivative slot = f(x, y)' on Continue/ModifiedSolution/XOut paths. Not decided: numerical effect of a modified state.")
